@@ -50,8 +50,15 @@ Record ost := OS {
   o_applied : list (N * N);
   o_discarded : list (N * N);
   o_dirty : list (N * N);      (* (tx, shard): another tx committed on one of tx's keys at shard since tx's last Yes there *)
-  o_known : bool               (* a known-class hit was seen *)
+  o_known : bool;              (* a known-class hit was seen *)
+  o_now : N;                   (* time, rebuilt from the EAdvance events *)
+  o_yes : list (N * N * N);    (* (tx, shard, time of tx's latest Yes at shard) = when its key locks there were (re)acquired *)
+  o_illegit : list (N * N)     (* dirty marks whose two overlapping prepares were NOT separated by a lock expiry: on correct
+                                  code the second prepare would have been refused, so this is not the known class *)
 }.
+Definition yes_time (o : ost) (tx sh : N) : N :=
+  match find (fun y => N.eqb (fst (fst y)) tx && N.eqb (snd (fst y)) sh) (o_yes o) with Some y => snd y | None => 0 end.
+Definition gap_gt (a b lim : N) : bool := N.ltb lim (N.max a b - N.min a b).
 
 Definition reg_parts (o : ost) (tx : N) : list N := match aget (o_reg o) tx with Some r => fst r | None => [] end.
 Definition reg_ops (o : ost) (tx sh : N) : list pop := match aget (o_reg o) tx with Some r => ops_for (snd r) sh | None => [] end.
@@ -66,19 +73,20 @@ Fixpoint unflat (l : list N) (fuel : nat) : list (N * list N) :=
            end
   end.
 
-Definition upd (o : ost) net' dec' cast' app' disc' dirty' known' : ost := OS net' (o_reg o) dec' cast' app' disc' dirty' known'.
+Definition upd (o : ost) net' dec' cast' app' disc' dirty' known' : ost := OS net' (o_reg o) dec' cast' app' disc' dirty' known' (o_now o) (o_yes o) (o_illegit o).
 
 (* returns None on a property violation *)
-Definition ostep (o : ost) (e : ev) (ret : list N) (pre post : list pdump) : option ost :=
+Definition ostep (ptmos : list N) (o : ost) (e : ev) (ret : list N) (pre post : list pdump) : option ost :=
   match e with
   | EBegin parts ops _ =>
       match ret with
       | [tx] => Some (OS (o_net o ++ map (fun sh => MPrepare tx sh (ops_for ops sh)) parts) (aset (o_reg o) tx (parts, ops))
-                         (o_dec o) (o_cast o) (o_applied o) (o_discarded o) (o_dirty o) (o_known o))
+                         (o_dec o) (o_cast o) (o_applied o) (o_discarded o) (o_dirty o) (o_known o) (o_now o) (o_yes o) (o_illegit o))
       | _ => None
       end
   | EDrop i => Some (upd o (remove_nth (o_net o) (N.to_nat i)) (o_dec o) (o_cast o) (o_applied o) (o_discarded o) (o_dirty o) (o_known o))
-  | EAdvance _ => Some o
+  | EAdvance d => Some (OS (o_net o) (o_reg o) (o_dec o) (o_cast o) (o_applied o) (o_discarded o) (o_dirty o) (o_known o) (o_now o + d) (o_yes o) (o_illegit o))
+  | EStray _ _ _ => Some o      (* a stray vote is no participant's answer: nothing to book *)
   | ECommit tx =>
       match ret with
       | [0] =>
@@ -110,8 +118,10 @@ Definition ostep (o : ost) (e : ev) (ret : list N) (pre post : list pdump) : opt
               (* prepare never touches the data *)
               if negb (loN_eqb (pd_store (nth_pd pre sh)) (pd_store (nth_pd post sh))) then None
               else match ret with
-                   | [0; h] => Some (upd o (net0 ++ [MVote tx sh (VYes h)]) (o_dec o) ((tx, sh) :: o_cast o) (o_applied o) (o_discarded o)
-                                         (pair_del (tx, sh) (o_dirty o)) (o_known o))
+                   | [0; h] => Some (OS (net0 ++ [MVote tx sh (VYes h)]) (o_reg o) (o_dec o) ((tx, sh) :: o_cast o) (o_applied o) (o_discarded o)
+                                        (pair_del (tx, sh) (o_dirty o)) (o_known o) (o_now o)
+                                        ((tx, sh, o_now o) :: filter (fun y => negb (N.eqb (fst (fst y)) tx && N.eqb (snd (fst y)) sh)) (o_yes o))
+                                        (pair_del (tx, sh) (o_illegit o)))
                    | [1; b] => Some (upd o (net0 ++ [MVote tx sh (VConflict b)]) (o_dec o) (o_cast o) (o_applied o) (o_discarded o) (o_dirty o) (o_known o))
                    | _ => None
                    end
@@ -125,10 +135,19 @@ Definition ostep (o : ost) (e : ev) (ret : list N) (pre post : list pdump) : opt
                   else
                     let others := filter (fun t => negb (N.eqb t tx) && keys_meet (reg_ops o tx sh) (reg_ops o t sh))
                                          (pd_prepared (nth_pd pre sh)) in
-                    Some (upd o net0 (o_dec o) (o_cast o) ((tx, sh) :: o_applied o) (o_discarded o)
-                              (map (fun t => (t, sh)) others ++ o_dirty o) (o_known o))
-              | _ => if loN_eqb (pd_store (nth_pd pre sh)) (pd_store (nth_pd post sh))
-                     then Some (upd o net0 (o_dec o) (o_cast o) (o_applied o) (o_discarded o) (o_dirty o) (o_known o)) else None
+                    let lim := nth (N.to_nat sh) ptmos 0 in
+                    let bad := filter (fun t => negb (gap_gt (yes_time o t sh) (yes_time o tx sh) lim)) others in
+                    Some (OS net0 (o_reg o) (o_dec o) (o_cast o) ((tx, sh) :: o_applied o) (o_discarded o)
+                             (map (fun t => (t, sh)) others ++ o_dirty o) (o_known o) (o_now o) (o_yes o)
+                             (map (fun t => (t, sh)) bad ++ o_illegit o))
+              | _ =>
+                  (* the commit was not applied.  If this participant still held the prepared transaction (it voted yes)
+                     and dropped it now, it has discarded a transaction whose decision is commit *)
+                  let had := mem tx (pd_prepared (nth_pd pre sh)) in
+                  let has := mem tx (pd_prepared (nth_pd post sh)) in
+                  if negb (loN_eqb (pd_store (nth_pd pre sh)) (pd_store (nth_pd post sh))) then None
+                  else if had && negb has && committed tx (o_dec o) then None
+                  else Some (upd o net0 (o_dec o) (o_cast o) (o_applied o) (o_discarded o) (o_dirty o) (o_known o))
               end
           | MAbort tx sh =>
               let had := mem tx (pd_prepared (nth_pd pre sh)) in
@@ -139,7 +158,7 @@ Definition ostep (o : ost) (e : ev) (ret : list N) (pre post : list pdump) : opt
                 Some (upd o net0 (o_dec o) (o_cast o) (o_applied o) (if had then (tx, sh) :: o_discarded o else o_discarded o)
                           (pair_del (tx, sh) (o_dirty o)) (o_known o))
               (* an abort must leave the shard's data exactly as it was; known class: another tx committed on the key in between *)
-              else if had && pair_mem (tx, sh) (o_dirty o) then
+              else if had && pair_mem (tx, sh) (o_dirty o) && negb (pair_mem (tx, sh) (o_illegit o)) then
                 let others := filter (fun t => negb (N.eqb t tx) && keys_meet (reg_ops o tx sh) (reg_ops o t sh))
                                      (pd_prepared (nth_pd pre sh)) in
                 Some (upd o net0 (o_dec o) (o_cast o) (o_applied o) ((tx, sh) :: o_discarded o)
@@ -149,11 +168,11 @@ Definition ostep (o : ost) (e : ev) (ret : list N) (pre post : list pdump) : opt
       end
   end.
 
-Fixpoint owalk (o : ost) (es : list ev) (os : list obs) (pre : list pdump) : option ost :=
+Fixpoint owalk (ptmos : list N) (o : ost) (es : list ev) (os : list obs) (pre : list pdump) : option ost :=
   match es, os with
   | e :: es', (ret, _, post) :: os' =>
-      match ostep o e ret pre post with
-      | Some o' => owalk o' es' os' post
+      match ostep ptmos o e ret pre post with
+      | Some o' => owalk ptmos o' es' os' post
       | None => None
       end
   | _, _ => Some o
@@ -166,7 +185,7 @@ Definition check_2pc (c : c03_case) : N :=
   let '(K, Tn, ctmo, parts0, es, os) := c in
   let g0 := ginit ctmo (map (fun st => part_init (fst st) (snd st)) parts0) in
   if negb (Nat.eqb (length es) (length os)) then 9
-  else match owalk (OS [] [] [] [] [] [] [] false) es os (map (model_pdump K (gnow g0)) (ps g0)) with
+  else match owalk (map snd parts0) (OS [] [] [] [] [] [] [] false 1000 [] []) es os (map (model_pdump K (gnow g0)) (ps g0)) with
        | None => V_VIOLATION
        | Some o =>
            (* the model mirrors the code, defect included: a known-class case must still correspond *)
